@@ -106,8 +106,7 @@ class Memory(Backend):
             self._set(key, value, expire)
 
     async def scan(self, pattern: str, batch_size: int = 100) -> AsyncIterator[Key]:  # type: ignore
-        pattern = pattern.replace("*", ".*")
-        regexp = re.compile(pattern)
+        regexp = re.compile(".*".join(re.escape(part) for part in pattern.split("*")), re.DOTALL)
         for key in dict(self.store):
             if regexp.fullmatch(key):
                 yield key
